@@ -591,6 +591,7 @@ func c13(r *core.Report) {
 	})
 	c13Format(r)
 	c13Absent(r)
+	c13ParamDefault(r)
 }
 
 // c13Alias: a document-owned payload is never stored into, or mutated through, a request value
@@ -970,6 +971,101 @@ func c13Absent(r *core.Report) {
 		}
 		if k == 0 {
 			core.Fail("no store of a schema Default into a value map found in openapi3")
+		}
+	})
+}
+
+// c13ParamDefault: a parameter default stands in for a parameter that is not in the request, once.
+func c13ParamDefault(r *core.Report) {
+	p := r.Prog
+	info := p.Pkg("openapi3filter").TypesInfo
+	fd := p.DeclOf("openapi3filter", "ValidateParameter")
+	ff := core.NewFuncFacts(p, info, fd)
+	r.RunRule("C13.paramabsent", "a parameter default is applied only to an absent parameter: in ValidateParameter every assignment of a schema's Default to the decoded value is reached only where the decoder's `found` result is false — `value == nil` alone is also true for a parameter that is present and empty (`?q=`), which then gets the default appended next to it on every validation", 1, func() {
+		k := 0
+		ast.Inspect(fd.Body, func(n ast.Node) bool {
+			as, ok := n.(*ast.AssignStmt)
+			if !ok || len(as.Lhs) != 1 || len(as.Rhs) != 1 {
+				return true
+			}
+			sel, ok := ast.Unparen(as.Rhs[0]).(*ast.SelectorExpr)
+			if !ok || sel.Sel.Name != "Default" {
+				return true
+			}
+			k++
+			key := fmt.Sprintf("paramabsent:default#%d", k)
+			notFound := false
+			for _, a := range core.Atoms(core.GuardsAt(info, fd.Body, as)) {
+				id, ok := ast.Unparen(a.Expr).(*ast.Ident)
+				if !ok || a.Pos {
+					continue
+				}
+				// a bool assigned from a decode call's results
+				for _, asg := range ff.Assigns(info.ObjectOf(id)) {
+					if asg.Call != nil {
+						if f := core.CalleeOf(info, asg.Call); f != nil && strings.HasPrefix(f.Name(), "decode") {
+							notFound = true
+						}
+					}
+				}
+			}
+			if notFound {
+				r.OK(key, p.Pos(as.Pos()), "only when the decoder did not find the parameter")
+			} else {
+				r.Bad(key, p.Pos(as.Pos()), "the default is taken whenever the decoded value is nil, also for a parameter that is present and empty: `?q=` becomes `?q=&q=<default>`, and every further validation of the forwarded request appends another copy")
+			}
+			return true
+		})
+		if k == 0 {
+			core.Fail("ValidateParameter no longer assigns a schema Default")
+		}
+	})
+	r.RunRule("C13.querycache", "the parsed query kept with the input follows the rewritten URL: wherever openapi3filter assigns URL.RawQuery (a default was added), the same block also assigns the input's cached QueryParams — otherwise the next validation of the same input does not see the parameter and adds the default again", 1, func() {
+		k := 0
+		for _, d := range p.AllDecls("openapi3filter") {
+			if d.Body == nil {
+				continue
+			}
+			ast.Inspect(d.Body, func(n ast.Node) bool {
+				blk, ok := n.(*ast.BlockStmt)
+				var list []ast.Stmt
+				if ok {
+					list = blk.List
+				} else if cc, isCC := n.(*ast.CaseClause); isCC {
+					list = cc.Body
+				} else {
+					return true
+				}
+				for i, st := range list {
+					as, ok := st.(*ast.AssignStmt)
+					if !ok || len(as.Lhs) != 1 {
+						continue
+					}
+					sel, ok := ast.Unparen(as.Lhs[0]).(*ast.SelectorExpr)
+					if !ok || sel.Sel.Name != "RawQuery" {
+						continue
+					}
+					k++
+					key := fmt.Sprintf("querycache:%s#%d", core.FuncName(d), k)
+					refreshed := false
+					for _, st2 := range list[i+1:] {
+						if as2, ok := st2.(*ast.AssignStmt); ok && len(as2.Lhs) == 1 {
+							if s2, ok := ast.Unparen(as2.Lhs[0]).(*ast.SelectorExpr); ok && s2.Sel.Name == "QueryParams" {
+								refreshed = true
+							}
+						}
+					}
+					if refreshed {
+						r.OK(key, p.Pos(as.Pos()), "the cached query is refreshed with the URL")
+					} else {
+						r.Bad(key, p.Pos(as.Pos()), "the URL's query is rewritten but the query cached in the validation input (GetQueryParams) keeps the old one: validating the same input again finds the parameter missing and adds the default a second time")
+					}
+				}
+				return true
+			})
+		}
+		if k == 0 {
+			core.Fail("no assignment to URL.RawQuery found in openapi3filter")
 		}
 	})
 }
